@@ -133,6 +133,34 @@ def collect(nest_fn, regs, thr, consumable):
     return got
 
 
+def collect_polled(nest_fn, regs):
+    """Consumable traces polled before anything was traced (the chunk is kept), after the nest, and once more: the
+    chunks delivered, in order, are the trace - a chunk handed out is the caller's and does not grow later."""
+    Metrics.beginCollect(None)
+    chunks = {k: [] for k in regs}
+    try:
+        Metrics.setNumCachedUses(BIG)
+        for r, t in regs:
+            Metrics.trace(r, type_=t, consumable=True)
+        for rnd in range(3):
+            if rnd == 1:
+                nest_fn()
+            for r, t in regs:
+                chunks[(r, t)].append(Metrics.consumeTrace(r, t))
+    finally:
+        try:
+            if Metrics.isCollecting():
+                for r, t in regs:
+                    try:
+                        Metrics.consumeTrace(r, t)
+                    except Exception:
+                        pass
+            Metrics.endCollect()
+        finally:
+            Metrics.setNumCachedUses(BIG)
+    return {k: [list(x) for ch in v for x in ch] for k, v in chunks.items()}
+
+
 def collect_both(nest_fn, regs, order):
     """Every trace registered as a file trace AND as a consumable trace."""
     prefix = os.path.join(core.scratch(), "c16b")
@@ -251,6 +279,8 @@ def run_all(fam, nest_fn, regs, feats, out):
         o = {k: v for k, v in o.items() if v}
         b = {k: v for k, v in base.items() if v}
         compare_runs(fam, b, o, "consumable-rows-differ-from-file-rows", feats, out)
+        o = {k: v for k, v in collect_polled(nest_fn, regs).items() if v}
+        compare_runs(fam, b, o, "consumable-rows-differ-when-polled-before-and-after", set(feats) | {"polled_early"}, out)
         # both modes for the same (rank, type), in either order of registration: the file and the consumed rows
         # are both complete (test_consume_trace_and_write registers consumable first)
         for order in ("file-first", "consumable-first"):
